@@ -21,6 +21,15 @@ def _cond(s, cond):
     return out
 
 
+def _cond_coll(cond):
+    """model condition on a collection (tag 1 = its current validator, 2 = another one)"""
+    if not cond or not cond.get("present"):
+        return None
+    if cond.get("star"):
+        return ["star"]
+    return [{1: "cur", 2: "garbage"}[t] for t in sorted(cond.get("tags", []))] or ["garbage"]
+
+
 def replay_rqs(rqs, seed, frontend="wsgi", prefix="/", backend="tree", principal="/user/"):
     s = DavSession(frontend=frontend, prefix=prefix, backend=backend, principal=principal)
     try:
@@ -43,7 +52,7 @@ def replay_rqs(rqs, seed, frontend="wsgi", prefix="/", backend="tree", principal
             elif op == "Mk":
                 s.mk(rq["c"], rq["kind"])
             elif op == "DeleteColl":
-                s.delete_coll(rq["c"])
+                s.delete_coll(rq["c"], im=_cond_coll(rq.get("im")))
             elif op == "Proppatch":
                 kind = s.events[-1]["audit"]["colls"].get(rq["c"], {}).get("kind", "calendar") \
                     if s.events else "calendar"
